@@ -62,7 +62,7 @@ Pr == MkProblem(pt[1], pt[2], pt[3])
 Exists == IsPoint => IsNonsingular(DefSystem(pt[1], pt[2]))
 
 Defining == IsPoint => LET pr == TLCEval(Pr)  C == TLCEval(MinCoeffs(pr))  R == AllResiduals(pr, C)
-            IN \A q \in 1..Len(R) : R[q].res = Zero
+            IN \A q \in 1..Len(R) : R[q].res.num = Zero
 
 (* ------------------------ first-order optimality ---------------------- *)
 \* Hermite system of one segment of duration Ti: rows = derivative d (0..s-1) at 0, then at Ti
